@@ -156,6 +156,14 @@ SHAPES = [
     ("here", lambda n: " | ".join(["vp_io H @0 <<< w"] + ["vp_st flt %d @0" % i for i in range(1, n)])),
     ("backquote", lambda n: "vp_argv `" + " | ".join(["vp_out K @0"] + ["vp_st flt 0 @0"] * (n - 1)) + "` @0"),
     ("builtin", lambda n: " | ".join(["alias"] + ["vp_st flt %d @0" % i for i in range(1, n)])),
+    # the same resources acquired by a stage that is not the first: its error paths hold the neighbours' pipe ends
+    ("here-mid", lambda n: " | ".join(["vp_argv a @0", "vp_io H @0 <<< w"] + ["vp_st flt %d @0" % i for i in range(2, n)])),
+    ("here-last", lambda n: " | ".join(["vp_argv a @0"] + ["vp_st flt %d @0" % i for i in range(1, n - 1)] + ["vp_io H @0 <<< w"])),
+    ("infile-mid", lambda n: " | ".join(["vp_argv a @0", "vp_io H @0 < fin"] + ["vp_st flt %d @0" % i for i in range(2, n)])),
+    ("redir-mid", lambda n: " | ".join(["vp_argv a @0", "vp_io L @0 2> f1"] + ["vp_st flt %d @0" % i for i in range(2, n)])),
+    ("builtin-mid", lambda n: " | ".join(["vp_argv a @0", "alias"] + ["vp_st flt %d @0" % i for i in range(2, n)])),
+    ("builtin-alone-redir", lambda n: "alias > f1 2> f2"),
+    ("capture-here", lambda n: "vp_argv $(" + " | ".join(["vp_out K @0"] + ["vp_io H @0 <<< w"] * (n - 1)) + ") @0"),
 ]
 
 
@@ -165,6 +173,8 @@ def judge_sweep(case):
     sb.clean_work()
     with open(os.path.join(sb.vpdir, "out.K"), "w") as f:
         f.write("kout\n")
+    with open(os.path.join(sb.work, "fin"), "w") as f:
+        f.write("input\n")
     limit, shape, n = case["limit"], case["shape"], case["n"]
     body = dict(SHAPES)[shape](n)
     line = "vp_snap B ; ulimit -n %d ; %s ; vp_argv ST $? ; ulimit -n 256 ; vp_snap A ; vp_argv SENTINEL" % (limit, body)
@@ -195,7 +205,7 @@ def judge_sweep(case):
             return ("violated", "C08:sweep-child-inherits-extra-fd:%s" % feat, res)
     pipe_failed = b"cicada: pipeline" in r.err
     res["pipe_creation_failed"] = pipe_failed
-    if pipe_failed and shape in ("plain", "redir", "here", "builtin"):
+    if pipe_failed and shape in ("plain", "redir", "here", "builtin", "here-mid", "here-last", "infile-mid", "redir-mid", "builtin-mid"):
         # the failing pipeline is the top-level one: it must fail as a whole
         if b"pipeline1" in r.err and stage_recs:
             return ("violated", "C08:sweep-stages-ran-despite-pipe-failure:%s" % feat, res)
